@@ -64,6 +64,21 @@ def plan(tier, seed):
     fam["df-rename"] = len(items) - n0
     for it in items:
         it["kind"] = "accept"
+    # the operator family (deviation bound 0/1) and the small dataflow family decorated with other generated opset
+    # classes: the emitted protos must be valid for the opset they declare (found while writing a C14 event: a
+    # literal next to a tensor is promoted through CastLike, which does not exist below opset 15)
+    n0 = len(items)
+    opsets = (13, 21) if quick else (13, 14, 15, 16, 19, 21, 23)
+    for it in list(items):
+        if (it.get("fam") in ("op-b1", "op-b2") and (not quick or it["spec"]["context"] == 0)) or \
+                (not quick and it.get("fam") == "df-full-s2-periph1"):
+            for n in opsets:
+                it2 = dict(it)
+                it2["kind"] = "accept_opset"
+                it2["opset"] = n
+                it2["fam"] = "opsets"
+                items.append(it2)
+    fam["opsets"] = len(items) - n0
     # bases for the mutation table: the small exhaustive dataflow family with default peripherals, plus the
     # all-default operator programs
     size = 2 if tier == "quick" else 3
@@ -93,6 +108,8 @@ def execute(item):
     from vf import c02lib
     if item["kind"] == "accept":
         return c02lib.check_accepted(item)
+    if item["kind"] == "accept_opset":
+        return c02lib.check_accepted_opset(item)
     return c02lib.check_mutants(item)
 
 
